@@ -39,9 +39,7 @@ example : PTFR_WF { PTFR.fresh with streamid := 1, ptdp_offset := 3, length := 2
 
 /-- a frame packs to exactly 4 + L bytes -/
 theorem PTFR_pack_length (s : PTFR.State) (h : PTFR_WF s) :
-    ∃ b, (PTFR.pack s).2 = .ok b ∧ b.length = 4 + s.length := by
-  refine ⟨_, by rw [ptfr_pack_eq s h], ?_⟩
-  simp [h.2.2.2]; omega
+    ∃ b, (PTFR.pack s).2 = .ok b ∧ b.length = 4 + s.length := ptfr_pack_length s h
 
 theorem PTFR_roundtrip (s t : PTFR.State) (h : PTFR_WF s) (hL : s.payload.length ≤ t.length) :
     ∃ b, (PTFR.pack s).2 = .ok b ∧ PTFR.unpack t b = ({ s with length := t.length }, .ok ()) :=
